@@ -35,7 +35,8 @@ def handle (ts : List String) : String :=
     let m := (runOw c.cfg c.env c.node c.input).isOk
     let s := Spec.accepts c.own c.written c.input
     -- a member the container cannot call, whose own verdict would have changed the composite's
-    let why := if !c.skip.isEmpty && Spec.accepts c.env c.node c.input != s then "member-schema-never-asked"
+    let why := if c.hasReq && Spec.accepts c.own c.node c.input != s then "required-does-not-require"
+               else if !c.skip.isEmpty && Spec.accepts c.env c.node c.input != s then "member-schema-never-asked"
                else Spec.reason c.own c.written c.input
     s!"{verdict m}\t{verdict s}\t{why}"
 
